@@ -124,10 +124,10 @@ func init() {
 			if tier == "thorough" {
 				return "3 receivers, 6 events (H_C12_three) and 8 events (H_C12_deep), max-receivers in {1,2}"
 			}
-			return "2 receivers, 5 events, max-receivers in {1,2}"
+			return "3 receivers, 5 events, max-receivers in {1,2}"
 		},
 		Jobs: func(tier string, prog *ssa.Program) []*Job {
-			js := []*Job{hjp("internal/app", "C12.two", "H_C12_two", "2 receivers, 5 events")}
+			js := []*Job{hjp("internal/app", "C12.three5", "H_C12_three5", "3 receivers, 5 events")}
 			if tier == "thorough" {
 				js = append(js, hjp("internal/app", "C12.three", "H_C12_three", "3 receivers, 6 events"))
 			}
@@ -204,9 +204,27 @@ func init() {
 				hj("C15.recvmanifest", "H_C15_recvmanifest", "legacy RecvManifest header on arbitrary bytes"),
 				hj("C15.recvfile", "H_C15_recvfile", "legacy RecvFile header on arbitrary bytes"),
 			}
+			js[3].CutCalls = []string{"transfer.receiveFileChunksWindowed"}
+			body := hj("C15.recvmanifest-body", "H_C15_recvmanifest_body", "legacy RecvManifest records after a well-formed manifest of 0 or 1 items")
+			body.CutCalls = []string{"transfer.receiveFileChunksWindowed"}
+			body.JSONLens = []int{2}
+			js = append(js, body)
+			js[3].OnJSONUnmarshal = func(it *Interp, dst *IfaceV) {
+				// an accepted manifest body: no item, or one item with a symbolic one-byte path, kind and size
+				if it.Choice("jsonItems", 2) == 0 {
+					return
+				}
+				mc := it.resolve(it.ptr(dst.V))
+				itemT := it.namedType("pkg/manifest", "FileItem")
+				arr := it.newArrayCell(itemT, 1, "json items")
+				it.setFields(arr.kids[0], map[string]Value{"RelPath": &StrV{it.InBytes("jsonPath", 1)}, "IsDir": it.In("jsonIsDir", "bool", 0), "Size": it.In("jsonSize", "i64", 64)})
+				it.field(mc, "Items").v = &SliceV{arr: arr, off: 0, ln: 1, cp: 1, elem: itemT}
+			}
 			for _, j := range js {
 				j.AllocLimit = 64<<20 + 2*48
 				j.Workers = 6
+				j.HangIsViolation = true
+				j.MaxSteps = 400000
 				if tier == "thorough" {
 					j.MaxSymAlloc = 8
 				}
